@@ -270,9 +270,79 @@ const abortMarker = 500000000
 // concurrency, seeded yields at the verif hook points): 64 goroutines start
 // calls concurrently, 10^4 (thorough 10^5) calls in all. Every first envelope's
 // id is recorded from the wire; every caller records (request, reply).
+// freshBurst: a FRESH connection whose very first RPCs are started at the same instant by 64 callers (spin barrier:
+// all of them are running when released). One unary call each.
+func freshBurst(round int) (ids []int64, pairs []string) {
+	const G = 64
+	l := NewLink(true)
+	l.Auto = true
+	var mu sync.Mutex
+	fwd := l.C.OnWrite
+	l.C.OnWrite = func(rp *Rpc) {
+		mu.Lock()
+		ids = append(ids, int64(rp.Id))
+		mu.Unlock()
+		fwd(rp)
+	}
+	sctx, scancel := context.WithCancel(context.Background())
+	srv := newEchoServer("srv", plusOneEcho())
+	go srv.Serve(sctx, l.S)
+	cc := goat.NewClientConn(l.C, "c1", "srv")
+	var ready, wg sync.WaitGroup
+	var goFlag atomic.Bool
+	res := make([]string, G)
+	for g := 0; g < G; g++ {
+		ready.Add(1)
+		wg.Add(1)
+		go func(g int) {
+			defer wg.Done()
+			tok := int64(round*1000 + g*3 + 1)
+			ready.Done()
+			for !goFlag.Load() {
+			}
+			cctx, cancel := context.WithTimeout(context.Background(), 5*time.Second) // not an oracle: keeps a lost reply from blocking the rig
+			defer cancel()
+			var out wrapperspb.BytesValue
+			if err := cc.Invoke(cctx, "/verif.Echo/Unary", &wrapperspb.BytesValue{Value: payloadOf(tok)}, &out); err != nil {
+				res[g] = fmt.Sprintf("(%d, -3)", tok)
+			} else {
+				res[g] = fmt.Sprintf("(%d, %d)", tok, tokenOf(out.Value))
+			}
+		}(g)
+	}
+	ready.Wait()
+	goFlag.Store(true)
+	wg.Wait()
+	scancel()
+	l.C.FailRead(io.EOF)
+	l.S.FailRead(io.EOF)
+	mu.Lock()
+	defer mu.Unlock()
+	sort.Slice(ids, func(a, b int) bool { return ids[a] < ids[b] })
+	return ids, res
+}
+
 func TestC05Free(t *testing.T) {
 	em := NewEmitter()
 	defer em.Close()
+	rounds := 40
+	if thorough() {
+		rounds = 400
+	}
+	for round := 1; round <= rounds; round++ {
+		if !want(round) {
+			continue
+		}
+		em.Marker("begin", round)
+		ids, pairs := freshBurst(round)
+		terms := make([]string, len(ids))
+		for i, v := range ids {
+			terms[i] = fmt.Sprint(v)
+		}
+		em.Emit(Rec{Idx: round, Kind: "c05-fresh-burst", Desc: map[string]any{"goroutines": 64, "ids": len(ids)},
+			Tags: []string{"fresh-connection-burst"}, Coq: fmt.Sprintf("C05Free 64 %s %s", coqList(terms), coqList(pairs))})
+		em.Marker("end", round)
+	}
 	if !want(0) {
 		return
 	}
